@@ -167,9 +167,9 @@ func minimise(sp space, h []uint16, v *vinfo, st state, full bool) ([]uint16, *v
 	return h, v, st
 }
 
-// searchCase runs the sub-search below first operation `first` to the given
-// depth (number of operations including the first).
-func searchCase(sp space, first uint16, depth int, until time.Time) *caseResult {
+// searchCase runs the sub-search below the given first operations to the
+// given depth (number of operations including the first).
+func searchCase(sp space, firsts []uint16, depth int, until time.Time) *caseResult {
 	res := &caseResult{maps: map[string]struct{}{}}
 	visited := map[[16]byte]struct{}{}
 	seenKeys := map[string]bool{}
@@ -233,15 +233,20 @@ func searchCase(sp space, first uint16, depth int, until time.Time) *caseResult 
 		return res // broken start state: nothing below it is explored
 	}
 
-	h0 := []uint16{first}
-	st, en, ov, _ := sp.exec(h0)
-	if !en {
-		return res
-	}
-	res.trans++
 	var frontier [][]uint16
-	if visit(h0, st, ov) {
-		frontier = append(frontier, h0)
+	for _, first := range firsts {
+		h0 := []uint16{first}
+		st, en, ov, _ := sp.exec(h0)
+		if !en {
+			continue
+		}
+		res.trans++
+		if visit(h0, st, ov) && depth > 1 {
+			frontier = append(frontier, h0)
+		}
+	}
+	if res.trans == 0 {
+		return res
 	}
 	res.depthDone = 1
 	n := sp.nOps()
